@@ -596,6 +596,10 @@ class SecpFamily:
                         yield dict(args=[[X[0], X[1], 1], self.jac(Y, rng)])
                         yield dict(args=[self.jac(X, rng), [Y[0], Y[1], 1]])
                         yield dict(args=[[X[0], X[1], 1], [Y[0], Y[1], 1]])
+                        # both operands on the same z != 1 (what a batch normalisation or a shared-z fast path produces)
+                        for z_ in (2, P - 1, rng.randrange(2, P)):
+                            z2_, z3_ = z_ * z_ % P, z_ * z_ * z_ % P
+                            yield dict(args=[[X[0] * z2_ % P, X[1] * z3_ % P, z_], [Y[0] * z2_ % P, Y[1] * z3_ % P, z_]])
             elif name == "jacobian_double" or name == "from_jacobian":
                 for X in (A, B, None):
                     yield dict(args=[self.jac(X, rng)])
